@@ -7,6 +7,7 @@ require (
 	github.com/go-openapi/loads v0.22.0
 	github.com/go-openapi/runtime v0.0.0
 	github.com/go-openapi/strfmt v0.23.0
+	gopkg.in/yaml.v3 v3.0.1
 )
 
 require (
@@ -30,7 +31,6 @@ require (
 	go.opentelemetry.io/otel/metric v1.24.0 // indirect
 	go.opentelemetry.io/otel/trace v1.24.0 // indirect
 	golang.org/x/sync v0.11.0 // indirect
-	gopkg.in/yaml.v3 v3.0.1 // indirect
 )
 
 replace github.com/go-openapi/runtime => /repo
